@@ -15,7 +15,7 @@ EXPLANATION = (
     "always written with explicit minimum/maximum (and scale/offset) taken from the fields the reader fills from its "
     "defaults, with attribute names and parse types agreeing; that prototype records are read and written in order; that "
     "writer and reader agree on the bit width for every range up to the full 64 bits and on the stored form; and that every "
-    "string passes the escaping gate. Not decided: that validate_prototype accepts every prototype the reader can produce, "
+    "string passes the escaping gate. Also the writer/reader inverse field maps, the unchanged-text rule of the string reader and the page-reload loop. Not decided: that validate_prototype accepts every prototype the reader can produce, "
     "and content equality of concrete copies (run-time).")
 
 
